@@ -28,3 +28,44 @@ func HarnessC07_Json() {
 	}
 	vReach("c07-json")
 }
+
+// HarnessC07_JsonLinear: the comment reader's work grows no faster than linearly with the input
+// length when the input is delivered whole: a string literal, a block comment, a line comment or
+// plain array text of n, 2n, 4n bytes.
+func HarnessC07_JsonLinear() {
+	shape := vChoice(4)
+	cost := func(n int) int {
+		var doc []byte
+		fill := func(c byte) {
+			for i := 0; i < n; i++ {
+				doc = append(doc, c)
+			}
+		}
+		switch shape {
+		case 0:
+			doc = append(doc, '[', '"')
+			fill('s')
+			doc = append(doc, '"', ']')
+		case 1:
+			doc = append(doc, '[', '/', '*')
+			fill('c')
+			doc = append(doc, '*', '/', ']')
+		case 2:
+			doc = append(doc, '[', '/', '/')
+			fill('c')
+			doc = append(doc, '\n', ']')
+		default:
+			doc = append(doc, '[')
+			for i := 0; i < n; i++ {
+				doc = append(doc, '1', ',')
+			}
+			doc = append(doc, '1', ']')
+		}
+		return vMeasure(func() {
+			out, err := ioutil.ReadAll(NewJsonPlusReader(&chunkReader{data: doc}))
+			vAssert(err == nil && len(out) > 0, "a well-formed document is read")
+		})
+	}
+	vLinear(cost, 200, 4096, 16384, "comment stripping cost grows no faster than linearly with the input length")
+	vReach("c07-json-linear")
+}
